@@ -260,6 +260,60 @@ def check_none_default(ctx, fn, param, rule='T19c', zero_valid=True):
                nontrivial=False)
 
 
+def check_no_truthiness(ctx, fn, param, rule='T19t', why=''):
+    """A parameter whose default None means "not given" while every other value -- falsy ones like 0, '' or False included --
+    is data must be recognised by identity (`is None`), never by truthiness: `if not p`, `p and ...`, `bool(p)`, `x if p else y`
+    treat an explicit falsy value as omitted.  Reports every boolean-context use of the bare parameter name."""
+    bad = []
+
+    def boolctx(e):
+        # the bare name evaluated for its truth value
+        if isinstance(e, ast.Name) and e.id == param:
+            bad.append(e)
+        elif isinstance(e, ast.UnaryOp) and isinstance(e.op, ast.Not):
+            boolctx(e.operand)
+        elif isinstance(e, ast.BoolOp):
+            for v in e.values:
+                boolctx(v)
+    # a rebinding in the `param is None` branch gives the omitted parameter a default: later truthiness tests look at that
+    # default and are not judged; a normalising rebind of a given value (`p = int(p)`) keeps falsy data falsy and is judged
+    rebound = False
+    for n in ast.walk(fn.node):
+        if isinstance(n, ast.If) and any(isinstance(c, ast.Compare) and txt(c.left) == param and len(c.ops) == 1 and
+                                         isinstance(c.ops[0], ast.Is) and txt(c.comparators[0]) == 'None' for c in ast.walk(n.test)):
+            rebound = rebound or any(isinstance(x, ast.Name) and x.id == param and isinstance(x.ctx, ast.Store)
+                                     for st in n.body for x in ast.walk(st))
+    for n in ast.walk(fn.node):
+        if isinstance(n, (ast.If, ast.While, ast.IfExp, ast.Assert)):
+            boolctx(n.test)
+        elif isinstance(n, ast.comprehension):
+            for i in n.ifs:
+                boolctx(i)
+        elif isinstance(n, ast.UnaryOp) and isinstance(n.op, ast.Not):
+            boolctx(n.operand)
+        elif isinstance(n, ast.BoolOp):
+            for v in n.values[:-1]:
+                boolctx(v)
+        elif isinstance(n, ast.Call) and isinstance(n.func, ast.Name) and n.func.id == 'bool' and n.args:
+            boolctx(n.args[0])
+    construct = '%s(%s)' % (fn.fq, param)
+    if rebound:
+        ctx.info('%s: parameter `%s` of %s is rebound in the function; truthiness uses are not judged' % (rule, param, fn.fq))
+        return
+    seen = set()
+    for e in bad:
+        if e.lineno in seen:
+            continue
+        seen.add(e.lineno)
+        ctx.ob(rule, construct, 'parameter `%s` (None = "not given"; any other value, falsy ones included, is data%s) is tested by '
+               'truthiness: an explicit falsy value is treated as omitted' % (param, '; ' + why if why else ''), False, loc=loc(fn, e))
+    if not bad:
+        n_id = sum(1 for n in ast.walk(fn.node) if isinstance(n, ast.Compare) and txt(n.left) == param and len(n.ops) == 1 and
+                   isinstance(n.ops[0], (ast.Is, ast.IsNot)) and txt(n.comparators[0]) == 'None')
+        ctx.ob(rule, construct, 'parameter `%s` is never tested by truthiness (%d identity tests against None)' % (param, n_id), True,
+               loc=fn.loc, nontrivial=n_id > 0)
+
+
 def check_get_none_presence(ctx, fn, rule='T26', receivers=None):
     """`X.get(k)` with no (or a None) default cannot tell "absent" from "present with value None".
     Using its result in a comparison / None-test to decide presence or equality is wrong whenever
